@@ -151,6 +151,7 @@ def make_uod(run: "Run", totalizer=True):
         # argument-less commands a user can issue directly (also during a pause): On1 drives Out1, OpenV opens Out2
         log(cmd, "exec")
         cmd.context.tags["Out1"].set_value(9.0, run.now)
+        cmd.context.tags["Out4"].set_value(9.0, run.now)
         cmd.set_complete()
 
     def fail_cmd(cmd: UodCommand, **kw):
@@ -200,6 +201,7 @@ def make_uod(run: "Run", totalizer=True):
          .with_hardware_register("Out2", RegisterDirection.Write, safe_value="Closed")
          .with_hardware_register("Free", RegisterDirection.Write)
          .with_hardware_register("Out3", RegisterDirection.Both, safe_value=1.5)     # output that is read back
+         .with_hardware_register("Out4", RegisterDirection.Write, safe_value=0.0)    # output whose tag does not declare a direction
          .with_tag(ReadingTag("In1", None))
          .with_tag(ReadingTag("X", None))
          .with_tag(ReadingTag("Tot", "L"))
@@ -207,6 +209,7 @@ def make_uod(run: "Run", totalizer=True):
          .with_tag(SelectTag("Out2", value="Closed", unit=None, choices=["Open", "Closed"], direction=TagDirection.Output))
          .with_tag(Tag("Free", value=0.0, unit=None, direction=TagDirection.Output))
          .with_tag(Tag("Out3", value=0.0, unit=None, direction=TagDirection.Output))
+         .with_tag(Tag("Out4", value=0.0, unit=None))
          .with_tag(Tag("Temp", value=20.0, unit="degC"))
          .with_tag(DerivedTag("Twice", fn=_twice, input_tags=[level]))     # registered before its input tag
          .with_tag(level)
@@ -471,7 +474,7 @@ class Run:
         ob["inc"] = inc
         if "tags" in self.observe:
             ob["tags"] = {k: self.tag(k) for k in SYS_TAGS}
-            ob["out"] = {k: self.tag(k) for k in ("Out1", "Out2", "Free", "Out3")}
+            ob["out"] = {k: self.tag(k) for k in ("Out1", "Out2", "Free", "Out3", "Out4")}
         ob["nmarks"] = len(self.marks())
         ob["ncmd"] = len(self.cmd_events)
         ob["cmd"] = self.cmd_events[self._ev0:]
